@@ -220,6 +220,40 @@ def h_specific(E, expr):
         return type(e).__name__
 
 
+def h_scope_sequence(E):
+    """the same text graded first by a grader that knows a name (user function, matrix function, metric suffix) and then by one that does not: the second
+    call reports the specific undefined-name error it would report in a fresh process - not the generic 'Could not check input'"""
+    import mitxgraders as m
+    import mitxgraders.helpers.calc.expressions as X
+    from mitxgraders.exceptions import MITxError
+    what = E.choice('name_kind', ['user-function', 'matrix-function', 'metric-suffix', 'user-constant-vs-none'])
+    c = E.real('c', 1, 2)
+    if what == 'user-function':
+        text, knows, not_ = 'x+ff(1)', m.FormulaGrader(answers='x+2', variables=['x'], user_functions={'ff': lambda t: t + 1}), m.FormulaGrader(answers='x+2', variables=['x'])
+    elif what == 'matrix-function':
+        text, knows, not_ = 'x+trace([[1,0],[0,1]])', m.MatrixGrader(answers='x+2', variables=['x'], max_array_dim=2), m.FormulaGrader(answers='x+2', variables=['x'], max_array_dim=2)
+    elif what == 'metric-suffix':
+        text, knows, not_ = 'x+2k', m.FormulaGrader(answers='x+2000', variables=['x'], metric_suffixes=True), m.FormulaGrader(answers='x+2000', variables=['x'])
+    else:
+        text, knows, not_ = 'x+cc', m.FormulaGrader(answers='x+cc', variables=['x'], user_constants={'cc': c}), m.FormulaGrader(answers='x+1', variables=['x'])
+
+    def outcome(g):
+        try:
+            return ('graded', str(g(None, text)['ok']))
+        except MITxError as e:
+            return ('error', type(e).__name__, str(e).startswith('Invalid Input: Could not check input'))
+    X.PARSER.cache = {}
+    fresh = outcome(not_)
+    X.PARSER.cache = {}
+    first = outcome(knows)
+    E.check('knowing-grader-grades', first == ('graded', 'True'))
+    second = outcome(not_)
+    E.check('anticipated-problem-keeps-specific-class-and-message', second == fresh and second[0] == 'error' and second[2] is False)
+    third = outcome(knows)
+    E.check('knowing-grader-grades', third == ('graded', 'True'))
+    return second[1]
+
+
 def h_anticipated(E, idx, negative_powers):
     """anticipated evaluation problems keep a SPECIFIC student-facing class and message - never the generic 'Could not check input'"""
     from mitxgraders import MatrixGrader
@@ -357,6 +391,7 @@ def harnesses(tier):
 
     def add(fn, base, params, bounds, **kw):
         hs.append(Harness(pname(base, **params), fn, tuple(params.values()), FUNCS, bounds, STUBS, **kw))
+    add(h_scope_sequence, 'scope_sequence', {}, '4 kinds of names known to one grader and not to the next; symbolic constant')
     for expr in SPECIFIC:
         add(h_specific, 'specific', dict(expr=expr), 'symbolic constant')
     import vchecks.c01 as c01
